@@ -223,6 +223,8 @@ def mpc(env):
     env.holds('iterations warm-start from the previous inputs', calls[0][2] == 'u0' and calls[1][2] == 'u1')
     env.holds('the final solve uses the best (lowest-cost) inputs seen', calls[-1][2] == 'u2')
     env.holds('the result is that final LQR solve', out[0] == f'x{len(calls)}')
+    env.holds('... its states, its inputs and ITS cost (the cost of the trajectory returned, not of an earlier iterate)',
+              len(out) == 3 and out[0] == f'x{len(calls)}' and out[1] == f'u{len(calls)}' and len(calls) == 4 and bool(out[2] == 9))
 
 
 @bounded('C14.kkt_comparison', functions=[f'{LQRM}:LQR.forward', 'pypose.module.mpc:MPC.forward'])
@@ -275,7 +277,33 @@ def kkt(rng, tier):
             if abs(Jr - Jstar) > 1e-7 * (1 + abs(Jstar)) or abs(float(cost[0]) - Jr) > 1e-7 * (1 + abs(Jr)):
                 fails.append(dict(clause='lqr_optimal_and_cost_consistent', signature=f'ltv={ltv},rep={rep}', n=n, m=m, H=H, cost=float(cost[0]), true_cost_of_u=Jr, optimum=Jstar)); break
         if k < 2: samples.append(dict(n=n, m=m, H=H, ltv=ltv, optimum=Jstar))
-    return dict(evaluations=evals, distinct_nontrivial=evals, rule='random LTI/LTV systems, PD Q, two consecutive solves per system object; distinct by seed',
+    # batches: every batch size 1..3 x state dimension 1..3 x horizon 1..3 (exhaustive) with per-item systems and costs - the batched solve
+    # returns, item by item, the solve of that item alone (which the loop above compares with the KKT solution)
+    d = torch.float64
+    for Bsz in (1, 2, 3):
+        for n in (1, 2, 3):
+            for H in (1, 2, 3):
+                m = rng.randrange(1, 3)
+                A_ = torch.randn(Bsz, n, n, dtype=d, generator=g) * 0.6; B_ = torch.randn(Bsz, n, m, dtype=d, generator=g)
+                C_ = torch.eye(n, dtype=d).repeat(Bsz, 1, 1); D_ = torch.zeros(Bsz, n, m, dtype=d)
+                c1_ = torch.randn(Bsz, n, dtype=d, generator=g); c2_ = torch.zeros(Bsz, n, dtype=d)
+                Mq = torch.randn(Bsz, H, n + m, n + m, dtype=d, generator=g); Qb = Mq @ Mq.mT + 0.5 * torch.eye(n + m, dtype=d)
+                pb = torch.randn(Bsz, H, n + m, dtype=d, generator=g); xb = torch.randn(Bsz, n, dtype=d, generator=g)
+                sig = f'batch={Bsz},n={n},m={m},H={H}'
+                try:
+                    xs_, us_, cs_ = pp.module.LQR(pp.module.LTI(A_, B_, C_, D_, c1_, c2_), Qb, pb, H)(xb)
+                except Exception as e:
+                    fails.append(dict(clause='lqr_raises', signature=sig, error=f'{type(e).__name__}: {e}'[:160])); continue
+                evals += 1
+                for b in range(Bsz):
+                    sl = slice(b, b + 1)
+                    try:
+                        x1, u1, c1v = pp.module.LQR(pp.module.LTI(A_[sl], B_[sl], C_[sl], D_[sl], c1_[sl], c2_[sl]), Qb[sl], pb[sl], H)(xb[sl])
+                    except Exception as e:
+                        fails.append(dict(clause='lqr_raises', signature=sig + f' (item {b} alone)', error=f'{type(e).__name__}: {e}'[:160])); break
+                    if not (torch.allclose(xs_[sl], x1, atol=1e-9) and torch.allclose(us_[sl], u1, atol=1e-9) and torch.allclose(cs_[sl], c1v, atol=1e-9)):
+                        fails.append(dict(clause='lqr_batch_is_itemwise', signature=sig, item=b)); break
+    return dict(evaluations=evals, distinct_nontrivial=evals, rule='random LTI/LTV systems, PD Q, two consecutive solves per system object; distinct by seed; batches 1..3 x n 1..3 x H 1..3 exhaustive',
                 bound='n <= 4, m <= 3, horizon <= 8 (quick) / 20 (thorough)', failures=fails[:6], samples=samples)
 
 
